@@ -254,11 +254,17 @@ theorem step_codes (henc : Encodes file L T) (hwf : WF T L) (he : L.sec 0x2001 =
     step file cm e = .ok { cm with codes := some (codeTab T L) } := by
   obtain ⟨ht, _⟩ := sec_some he
   obtain ⟨hn, hal, hat⟩ := henc.codes.get he
-  have hd := decCodes_placed file T.codes e.offset (hal rfl)
-    (fun p hp => ⟨hwf.codes p hp, henc.codePad p hp⟩) hat
-  rw [← hn] at hd
+  have hd := decCodes_placed file T.codeItems e.offset (hal rfl)
+    (fun q hq => by
+      obtain ⟨p, hp, rfl⟩ := List.mem_map.mp hq
+      obtain ⟨tail, pad, h1, h2, h3⟩ := henc.codeRest p hp
+      refine ⟨encCode p.1 ++ tail, pad, by simp only [h1, List.append_assoc], ?_, h3⟩
+      intro rest
+      exact decCode_item p.1 tail rest (hwf.codes p hp) h2) hat
+  have hlen : T.codeItems.length = e.size := by simp [Tables.codeItems, hn]
+  rw [hlen] at hd
   simp [step, ht, seek4_aligned _ (hal rfl), hd, structErr, bind, Except.bind, pure, Except.pure, codeTab,
-    tab, he, Tables.codeItems]
+    tab, he]
 
 theorem step_classDefs (henc : Encodes file L T) (hwf : WF T L) (he : L.sec 0x0006 = some e) (cm : CM)
     (hb : T.classDefs ≠ [] → Base cm T L ∧ cm.typeLists.getD [] = tlTab T L ∧
